@@ -287,13 +287,13 @@ func (s *ckSim) deliver(st *ckStream, k int, corrupt string, badDid bool, badVer
 }
 
 func (s *ckSim) run(steps int) {
-	s.fs = vfs.NewMem()
+	s.fs = vfs.NewStrictMem()
 	must := func(err error) {
 		if err != nil {
 			panic(err)
 		}
 	}
-	must(s.fs.MkdirAll(ckRoot(1, 2), 0755))
+	must(fileutil.MkdirAll(ckRoot(1, 2), s.fs))
 	slots := uint64(1 + s.rng.Intn(2))
 	gct := uint64(1 + s.rng.Intn(2))
 	to := uint64(2 + s.rng.Intn(3))
@@ -362,6 +362,62 @@ func (s *ckSim) run(steps int) {
 	for i := 0; i < 12; i++ {
 		s.chunks.Tick()
 		s.emit(ckEv{Op: "Tick"})
+	}
+	s.durable()
+}
+
+// durable: power loss at the end of the trace. Every directory that carried a final name
+// before the power loss (the receiver had handed the snapshot to raft) must still be there
+// afterwards with every file - snapshot file, flag file and external files - unchanged.
+func (s *ckSim) durable() {
+	read := func() map[string]map[string]string {
+		r := map[string]map[string]string{}
+		names, _ := s.fs.List(ckRoot(1, 2))
+		for _, n := range names {
+			var idx uint64
+			if _, err := fmt.Sscanf(n, "snapshot-%016X", &idx); err != nil || len(n) != 25 {
+				continue
+			}
+			dir := s.fs.PathJoin(ckRoot(1, 2), n)
+			files, _ := s.fs.List(dir)
+			m := map[string]string{}
+			for _, fn := range files {
+				f, err := s.fs.Open(s.fs.PathJoin(dir, fn))
+				if err != nil {
+					continue
+				}
+				b, _ := io.ReadAll(f)
+				f.Close()
+				m[fn] = string(b)
+			}
+			r[n] = m
+		}
+		return r
+	}
+	pre := read()
+	s.fs.(*vfs.MemFS).ResetToSyncedState()
+	post := read()
+	names := make([]string, 0, len(pre))
+	for n := range pre {
+		names = append(names, n)
+	}
+	sort.Strings(names)
+	for _, n := range names {
+		var idx uint64
+		fmt.Sscanf(n, "snapshot-%016X", &idx)
+		ok, why := true, ""
+		pm, found := post[n]
+		if !found {
+			ok, why = false, "directory gone"
+		} else {
+			for fn, data := range pre[n] {
+				if pm[fn] != data {
+					ok = false
+					why = fn + " lost or changed"
+				}
+			}
+		}
+		s.emit(ckEv{Op: "Durable", Index: idx, Same: ok, Msg: why})
 	}
 }
 
